@@ -376,6 +376,12 @@ def _res(e, fi):
     return e
 
 
+@rule("C10.counts", "the count table handed to the scores has one column per OBSERVED parent configuration (groupby(..., observed=True))", floor=1)
+def counts(rc):
+    from . import c06
+    c06.counts_primitive(rc, rc.repo)
+
+
 @rule("C10.registry", "scoring-method name tables map each documented name to the class of that name", floor=2)
 def registry(rc):
     repo = rc.repo
@@ -413,6 +419,8 @@ def defuse(rc):
     _sh.defuse_rule(rc, _sh.anchor_files("C10"))
 
 MUTANTS = [
+    dict(kind="break", name="conditional-counts-by-value-counts", file="pgmpy/estimators/base.py", expect="C10.counts",
+         old="                    self.data.groupby([variable] + parents, observed=True)\n                    .size()\n", new="                    self.data.loc[:, [variable] + parents]\n                    .value_counts(sort=False)\n"),
     dict(kind="break", name="k2-drop-conds-adj", file=SS, expect="C10.compensate",
          old="            - (np.sum(log_gamma_conds) + gamma_conds_adj)\n            + num_parents_states * lgamma(var_cardinality)",
          new="            - np.sum(log_gamma_conds)\n            + num_parents_states * lgamma(var_cardinality)"),
